@@ -15,6 +15,8 @@
 (*   "LateAdd"                a player add is accepted after rotation to a player who has played    *)
 (*                            ball 1 but whose next turn has not incremented his ball number yet     *)
 (*   "AddRace"                two requests in flight are both accepted at max_players - 1            *)
+(*   "FirstPlayerOvertaken"   a later player whose player_adding completes before player 1's becomes  *)
+(*                            the first current player                                                *)
 EXTENDS Integers, Sequences, FiniteSets, TLC
 CONSTANTS Configs,      \* set of records [bpg, maxp, known]
           Deviations, PMax,
@@ -55,10 +57,12 @@ Accept(st) == /\ RealGuard(st)
               /\ ("LateAdd" \in Deviations \/ ~LateWindow(st))
 \* ---- the coroutine --------------------------------------------------------------------------------------
 IdealSkip(st) == "NoPlayerHang" \notin Deviations /\ st.ending /\ st.np = 0 /\ st.nreq = 0
-AdvEnabled(st) == \/ st.pc = "boot"
-                  \/ st.pc = "dlv" /\ ~st.held
-                  \/ st.pc = "waitplayer" /\ (st.alo \/ IdealSkip(st))
-                  \/ st.pc = "live" /\ st.flag
+\* a posted player_add_request is processed by the event bus before the coroutine gets its next turn
+AdvEnabled(st) == /\ st.nreq = 0
+                  /\ \/ st.pc = "boot"
+                     \/ st.pc = "dlv" /\ ~st.held
+                     \/ st.pc = "waitplayer" /\ (st.alo \/ IdealSkip(st))
+                     \/ st.pc = "live" /\ st.flag
 \* while not self.ending: _start_player_turn (rotating to the first player if there is none)
 LoopHead(st) == IF st.ending THEN Post(st, GWE)
                 ELSE Post([st EXCEPT !.cur = IF @ = 0 THEN 1 ELSE @], TWS)
@@ -141,7 +145,9 @@ DeliverAdding(p) == /\ s.padd[p] = "posted"
                             [k EXCEPT !.holds = IF h THEN @ + 1 ELSE @])
 \* _player_adding_complete: posts player_added, becomes the current player if there is none, wakes the game start
 PComplete(p) == /\ s.padd[p] = "dlv" /\ ~s.pheld[p]
-                /\ Do([s EXCEPT !.padd[p] = "added", !.cur = IF @ = 0 THEN p ELSE @, !.alo = TRUE], [op |-> "adv"], k)
+                /\ Do([s EXCEPT !.padd[p] = "added", !.alo = TRUE,
+                                 !.cur = IF @ = 0 /\ (p = 1 \/ "FirstPlayerOvertaken" \in Deviations) THEN p ELSE @],
+                      [op |-> "adv"], k)
 DeliverAdded(p) == /\ s.padd[p] = "added"
                    /\ Do([s EXCEPT !.padd[p] = "done"], [op |-> "ev", name |-> "player_added", hold |-> FALSE, number |-> p, deny |-> FALSE], k)
 \* environment
@@ -197,6 +203,8 @@ TurnIsOnePlusExtras ==
 BallEndsOnlyWithCause == [][(s.pc = "live" /\ s'.pc = "posted") => s.cause /\ s'.pe = BWE]_vars
 \* ... and then it does end (also when the request arrived while the ball was still starting)
 BallEnds == (s.pc = "live" /\ s.cause) ~> (s.pc = "dlv" /\ s.pe = BWE)
+\* once the game is ending the coroutine does not block anywhere but at a live ball (which the next drain ends)
+EndGameTakesEffect == (GameOn(s) /\ s.ending) ~> (s.pc \in {"live", "idle"})
 GameEndCompletes == (s.pc = "posted" /\ s.pe = GWE) ~> (s.pc = "idle")
 \* after game_ended no game is active, the grammar is back at its start, and a new game starts fresh
 AfterEnd == s.pc = "idle" => s.g = "idle" /\ ~s.held
